@@ -6,6 +6,8 @@ CONSTANTS
   Miuxs = {0, 1, 2047}
   Rws = {0, 1, 2, 3, 4, 5, 6, 7, 8, 9, 10, 11, 12, 13, 14, 15}
   Sym = {0, 65, 255}
+  MemSapCodes = {96, 4032}
+  FrmrSapCodes = {0, 4095}
   Alpha = {0}
 INVARIANT RoundTrip
 INVARIANT LenAgrees
